@@ -889,6 +889,10 @@ def diff_snap(a, b):
 
 
 def c16_judge(step, op, exp, status, excname, exc, fired, log, pre, post, cfg):
+    if excname == "RecursionError":
+        # stack exhaustion (the unbounded rollback recursion of finding C03-4): the interpreter may refuse
+        # the very call that would have recorded a hook, so the log cannot be judged
+        return
     bad16 = c16_check(pre, post, log, fired, exp, status, cfg.get("observe_hooks"))
     if bad16:
         raise Violation(
